@@ -78,7 +78,10 @@ struct StreamIt
     }
     if (pos != log->cursor)
     {
+      // recorded as a protocol error; the copy still moves on so that the caller's loop ends
       log->error ("a copy of an already-advanced single-pass iterator was incremented");
+      ++pos;
+      proxy = false;
       return *this;
     }
     if (pos < RangeLog::RL_MAX)
